@@ -295,3 +295,67 @@ func VerifHarness_C07_FallbackCase() {
 		verifReach("fallback-nonempty")
 	}
 }
+
+// eligibility and the fallback's internal cut: better-matching commands that the platform /
+// pipeline filters exclude must not crowd out an eligible match
+func VerifHarness_C07_FallbackFiltered() {
+	mk := func(cmd, desc string, plat []string, pipe bool) Command {
+		c := Command{Command: cmd, Description: desc, Platform: plat, Pipeline: pipe}
+		vFill(&c)
+		return c
+	}
+	var cmds []Command
+	for i := 0; i < 4; i++ {
+		cmds = append(cmds, mk("zqx"+string(rune('a'+i)), "mm", []string{"windows"}, false))
+	}
+	cmds = append(cmds, mk("nn | zzqqxx", "oo pp", []string{"linux"}, true))
+	db := &Database{Commands: cmds}
+	db.BuildUniversalIndex()
+	o := SearchOptions{Limit: verifIntRange("limit", 1, 2), UseFuzzy: true, FuzzyThreshold: 0}
+	o.PipelineOnly = verifBool("pipelineOnly")
+	o.AllPlatforms = verifBool("allPlatforms")
+	res := db.SearchUniversal("zqx", o)
+	for _, r := range res {
+		verifAssert(c04Eligible(r.Command, o), "C07: fallback results pass the platform and pipeline filters")
+		verifAssert(c07Subseq("zqx", r.Command.Command+" "+r.Command.Description), "C07: every fallback result contains the query's characters in order")
+	}
+	// the linux pipeline command contains z, q, x in order and is always eligible
+	verifAssert(len(res) > 0, "C07: a query occurring in order in some eligible command is never left without a result when no threshold is set")
+	verifReach("fallback")
+	if len(res) > 0 {
+		verifReach("fallback-nonempty")
+	}
+}
+
+// queries with punctuation: the fallback matches the query as typed
+func VerifHarness_C07_FallbackPunct() {
+	mk := func(cmd, desc string) Command {
+		c := Command{Command: cmd, Description: desc}
+		vFill(&c)
+		return c
+	}
+	db := &Database{Commands: []Command{mk("zaqbx", "mm"), mk("z!q", "a|b x*y"), mk("nn", "oo")}}
+	db.BuildUniversalIndex()
+	p := verifByte("punct")
+	verifAssume(p >= '!')
+	verifAssume(p <= '/')
+	q := []string{"zq" + string([]byte{p}), string([]byte{p}), "z" + string([]byte{p}) + "q"}[verifIntRange("shape", 0, 2)]
+	if len(db.SearchUniversal(q, SearchOptions{Limit: 5, AllPlatforms: true})) > 0 {
+		return
+	}
+	res := db.SearchUniversal(q, SearchOptions{Limit: 5, UseFuzzy: true, FuzzyThreshold: 0, AllPlatforms: true})
+	some := false
+	for i := range db.Commands {
+		if c07Subseq(q, db.Commands[i].Command+" "+db.Commands[i].Description) {
+			some = true
+		}
+	}
+	for _, r := range res {
+		verifAssert(c07Subseq(q, r.Command.Command+" "+r.Command.Description), "C07: every fallback result contains the query's characters in order")
+	}
+	if some {
+		verifAssert(len(res) > 0, "C07: a query occurring in order in some command is never left without a result when no threshold is set")
+		verifReach("fallback-nonempty")
+	}
+	verifReach("fallback")
+}
